@@ -17,6 +17,14 @@ CHECKS = {
             "hand model Decoder tied by T3; GenOk facts come from the regenerated tables", "5 C10"),
     "C11": ("Lean theorems over the decoder model: a claim changes only its own address's identity, only claims change the source map, every returned message carries the source map's identity for its source right after the step, manufacturer exclude/include lists (unknown code passes no include list), discovery window, and no leak for every history; + history correspondence + identity monitor on the real decoder",
             "hand model tied by T3; the 10-minute window is a Boolean input", "5 C11"),
+    "C12": ("Lean theorems: framing is a function of the concatenated stream, not of the reads (Reader.feed13 / feedLines chunking independence and exactness; Serial.feed via C20_chunking) and the receive queue delivers FIFO, each message once, whatever the callback does; correspondence: the byte strings the four real clients take off a real StreamReader under every segmentation class vs the framing models, queue events vs the queue machine, callback log vs a reference decoder",
+            "PARTIAL w.r.t. the runtime: real TCP segmentation and asyncio internals are represented only through the real StreamReader object and the stated assumption (readexactly/readline consume the concatenation)", "5 C12, 2.9"),
+    "C13": ("Lean theorems over the client LTS, for every accepted event list: back-off formula (growing, capped at 10 s, never zero), retry delay = back-off of the attempt number, at most one live receive task at every point of every trace, recovery for every k (refused k times then accepted ends CONNECTED, reported once, receive task on the new link), DISCONNECTED only after a fault and only once, no non-progressing receive iteration; trace validation of the four real clients under virtual time with faults injected at every step",
+            "PARTIAL w.r.t. the runtime: LTS at the granularity of externally observable events, tied by trace validation; blocking inside a task step is outside the model (a wall-clock alarm turns a non-yielding spin into an observation)", "5 C13, 2.9"),
+    "C14": ("Lean theorems over the client LTS: CLOSED is absorbing for every event and trace, no connection attempt, receive task or status report once CLOSED, the status log is exactly the sequence of state changes without repeats, close() returns only with the link shut and no receive task alive, no callback afterwards; trace validation with close() injected at every loop step and virtual time of every session shape, incl. close() from inside a callback and raising/slow status callbacks",
+            "PARTIAL w.r.t. the runtime as C13", "5 C14, 2.9"),
+    "C19": ("Lean theorems over the client LTS: a write needs the send lock, in every accepted trace each message's packets form one contiguous block in encoder order, an unsendable message is a no-op on the state, a failing write records a fault that enables DISCONNECTED; trace validation with concurrent sends, scripted drain() suspensions, write/drain failures at each packet and really unencodable messages through the real encoder",
+            "PARTIAL w.r.t. the runtime as C13", "5 C19, 2.9"),
     "C16": ("Lean theorems over the decoder model: a single-frame probe's result depends only on configuration, input and source identity; ignored/rejected input leaves reassembly table and source map untouched; fast frames touch only their own stream; a complete fast-packet message with a fresh counter decodes, after ANY history, to what its pre-assembled payload decodes to (also the frame-wise = pre-assembled clause of C07); isolation between live instances is VALIDATED by multi-instance correspondence",
             "isolation proper rests on T3 (several real decoders/encoders alive, each compared with its own model instance), not on a theorem", "5 C16"),
     "C17": ("Lean theorems over Dec.hashKey: key = id and primary-key raws only (congruence), unit preferences and everything else irrelevant, no hash with mapping off, key injective for underscore-free ids and integer keys; kernel-checked database facts (no id contains '_', primary-key kinds) and the C01 tables pinning the primary-key flags; correspondence hashes the model's key with hashlib and compares digests",
